@@ -270,9 +270,29 @@ def r5(ctx):
             for s in blk.stmts:
                 if s.k == "assign" and s.rv.k == "ref" and s.rv.place.fields()[-1:] == ("buffer",) and "MemcacheBinaryConnection" in body.path:
                     users.add(body.root or body.path)
-    allowed = {CONN + "::read_frame", CONN + "::new"}
+    # allowed: the constructor, read_frame, and private helpers that are called from read_frame only
+    import callgraph
+
+    cg = callgraph.get(ctx)
+
+    def root_of(p):
+        b2 = f.bodies.get(p)
+        return (b2.root or b2.path) if b2 is not None else p
+
+    def only_from_read_frame(fn, seen=None):
+        seen = seen or set()
+        if fn in seen:
+            return True
+        seen.add(fn)
+        if fn in (CONN + "::read_frame", CONN + "::new"):
+            return True
+        callers = set(root_of(bp) for bp, _bb, t in cg.callers_of(lambda c: (c.resolved or c.path) == fn))
+        if not callers:
+            return False
+        return all(only_from_read_frame(c, seen) for c in callers)
+
     for u in sorted(users):
-        rep.check(u in allowed or u.startswith(CONN + "::read_frame"), "buffer-user:" + u, "connection buffer used by read_frame only", "the connection buffer is accessed in %s" % u)
+        rep.check(only_from_read_frame(u), "buffer-user:" + u, "connection buffer used by read_frame (and its private helpers) only", "the connection buffer is accessed in %s, which is not part of read_frame: bytes can be consumed or dropped outside the decoder loop" % u)
     return rep
 
 
